@@ -331,7 +331,7 @@ func runC11(x *vt.Ctx, c FaultCase) *vt.Finding {
 	return nil
 }
 
-var propC11 = vt.Prop[FaultCase]{ID: "C11", Test: "TestC11", Gen: genC11, Run: runC11, Retry: timeoutFinding}
+var propC11 = vt.Prop[FaultCase]{ID: "C11", Test: "TestC11", Gen: genC11, Run: runC11, Retry: reproducibleOnly}
 
 func TestC11(t *testing.T) { topT = t; propC11.Check(t) }
 
@@ -344,6 +344,13 @@ func histStr(h []world.Step) string {
 		}
 		if st.Err != "" {
 			b.WriteString("!")
+			if !st.Injected { // a step that failed on its own: say why
+				e := st.Err
+				if len(e) > 60 {
+					e = e[:60]
+				}
+				b.WriteString("(" + e + ")")
+			}
 		}
 		b.WriteString(" ")
 	}
